@@ -26,7 +26,7 @@ def install(ctx):
 
     def parse_trace_data(data, string_file_path):
         res = orig(data, string_file_path)
-        strings = FILES.get(os.path.abspath(string_file_path))
+        strings = FILES.get(iogen.pkey(string_file_path))
         if strings is None:
             ctx.counters["trace.unknown_string_file"] += 1
             return res
@@ -66,7 +66,7 @@ def install(ctx):
 
     def get_trace_string(self, hash_value):
         r = orig_get(self, hash_value)
-        strings = FILES.get(os.path.abspath(self.string_file_path))
+        strings = FILES.get(iogen.pkey(self.string_file_path))
         if strings is not None:
             ctx.counters["get_trace_string.checked"] += 1
             s, partial = im.find_string(strings, hash_value)
@@ -81,9 +81,10 @@ def install(ctx):
 
 def plan(tier, seed):
     n = 60 if tier == "quick" else 700
-    specs = [{"mode": "synthetic", "n": n, "rseed": seed * 1000 + i, "step": 5 if tier == "quick" else 2} for i in range(14)]
+    specs = [{"mode": "synthetic", "n": n, "rseed": seed * 1000 + i, "optimize": i % 4 == 3, "step": 5 if tier == "quick" else 2} for i in range(14)]
     specs += [{"mode": "shipped", "which": w, "n": 120 if tier == "quick" else 5000, "rseed": seed * 1000 + 100 + k}
               for k, w in enumerate(["mex", "nimitz"])]
+    specs[-1]["optimize"] = True          # python -O: assert statements are compiled away
     specs.append({"mode": "layout", "n": 30 if tier == "quick" else 300, "rseed": seed * 1000 + 200})
     return specs
 
@@ -109,7 +110,7 @@ def drive(ctx, trace, rng, path, strings, tag, step):
         ctx.current = {"strings": [list(s) for s in strings][:30] if len(strings) < 100 else tag, "data": d[:600]}
         ctx.case(tag + d.hex(), len(d) >= 32, sample={"data_hex": d[:48].hex(), "len": len(d)} if len(d) == 48 else None)
         try:
-            trace.parse_trace_data(iogen.view_of(rng, d), path)
+            trace.parse_trace_data(iogen.view_of(rng, d), iogen.path_of(rng, path))
         except Exception as e:
             ctx.violation("C15/decoder-raised/" + type(e).__name__, "parse_trace_data raised %r (every input must be decoded or dumped)" % (e,),
                           data=d[:600], strings=[list(s) for s in strings][:40] if len(strings) < 100 else tag)
